@@ -16,7 +16,7 @@ MANIFEST = {
     "text": "Every generated import graph is analysed and run under perturbed thread timing; hook trace and output are checked "
             "against the reference evaluation of the graph.",
     "technique": "history checker over the analysis hook trace + differential check of program output against a reference evaluation of the module graph, under injected delays",
-    "note": "termination is judged with a 240 s budget per run, re-tried alone before it counts; a cyclic graph rejected with ordinary diagnostics is counted as declined",
+    "note": "termination is judged with a 240 s budget per run, re-tried alone before it counts; cross-cycle references go through the partner's function in the generated workload (its variable: listed finding, exact project kept)",
 }
 
 
@@ -32,8 +32,15 @@ def read_trace(path):
     return ev
 
 
+def known_project():
+    """the exact project of the listed finding: a 2-cycle whose members read each other's *variable* inside a function body"""
+    p = proj.Project(["main", "m1", "m2"], {0: [1]}, {1: [2], 2: [1]}, [1, 2, 3], "cycle2-variable")
+    p.cyc_uses_var = True
+    return p
+
+
 def run_one(ctx, case):
-    p = proj.generate(case["seed"])
+    p = known_project() if case["seed"] == "known:cycle-variable" else proj.generate(case["seed"])
     base = os.path.join(ctx.scratch, "p" + common.sha(case))
     results = []
     for k, sched in enumerate(case["scheds"]):
@@ -95,8 +102,8 @@ def judge(rep, r):
         errtext = fragrun.strip_ansi(pr.serr)
         if "top main" not in text and fragrun.exc_class(pr.serr) is None:
             if p.has_cycle():
-                rep.declined += 1
-                rep.count("cyclic_graph_rejected")
+                entries = sum(1 for i, v in p.dag.items() for j in v if j in p.members)
+                rep.violation(f"rejected:{p.shape}:members-imported-by-{min(entries, 2)}-outside-edges", f"cyclic project rejected (sched={sched}); {desc}\n{errtext[:1500]}", case)
                 return
             rep.violation(f"rejected:{p.shape}", f"acyclic project rejected (sched={sched}); {desc}\n{errtext[:3000]}\nTRACE:\n" + "\n".join(f"{a} {b} {c} {os.path.basename(d_)}" for a, b, c, d_ in trace), case)
             return
@@ -129,6 +136,9 @@ def judge(rep, r):
         for v in vals:
             if v not in lines:
                 got = [l for l in lines if l.split(" ")[:2] == v.split(" ")[:2]]
+                if "Segmentation fault" in errtext:
+                    rep.violation(f"python-segfault:{p.shape}", f"the compiled program crashes the interpreter (Segmentation fault) (sched={sched}); {desc}", case)
+                    return
                 rep.violation(f"wrong-value:{p.shape}", f"expected line `{v}`, got {got} (sched={sched}); {desc}\n{errtext[-300:]}", case)
                 return
         order = common.sha([(site, os.path.basename(key)) for _, _, site, key in trace])
@@ -148,6 +158,7 @@ def run(ctx, rep):
     n = ctx.n(60, 1500)
     cases = [{"seed": f"C20:{ctx.seed}:{i}", "scheds": [None] + [f"{ctx.seed * 1000 + i * 7 + k}:{m}" for k, m in enumerate((2000, 20000, 40000))]}
              for i in range(n)]
+    cases.append({"seed": "known:cycle-variable", "scheds": [None]})
     for r in common.pmap(lambda c: run_one(ctx, c), cases):
         judge(rep, r)
     rep.min_evaluations = n
